@@ -228,6 +228,7 @@ func propJanitor(c *Case) {
 
 		nops := c.Int("nops", 3, 25)
 		jumps := 0
+		massCase := stats == nil && c.Weighted("mass-case", 7, 1) == 1 // (a small count limit must not be exceeded at a cycle)
 
 		for i := 0; i < nops; i++ {
 			wExpireAll := 0
@@ -240,7 +241,21 @@ func propJanitor(c *Case) {
 				wCycle = 4
 			}
 
-			switch c.Weighted("op", 5, 5, 1, 1, wExpireAll, wCycle) {
+			wMass := 0
+			if massCase && !d.bulked {
+				wMass = 3
+			}
+
+			switch c.Weighted("op", 5, 5, 1, 1, wExpireAll, wCycle, wMass) {
+			case 6:
+				// hundreds of entries in ONE shard (next to key "a"), born long-expired, recently expired or fresh
+				sync()
+				n := []int{70, 300, 400}[c.Pick("mass-n", 3)]
+				d.bulk(n, true, []time.Duration{-dea - interval, -dea - 3*interval, -time.Nanosecond, time.Hour}[c.Weighted("mass-ttl", 3, 2, 1, 1)])
+
+				for _, k := range sameShardPool[:n] {
+					writtenAt[string(k)] = time.Now().UnixNano()
+				}
 			case 5:
 				cycle()
 				checkAll()
